@@ -290,7 +290,10 @@ class SymNum:
         p = self.e
         if not _has_div(p):
             p = z3.simplify(p, som=True, som_blowup=1000000)
-        return wrap(z3.If(p >= 0, p, -p))
+        r = wrap(z3.If(p >= 0, p, -p))
+        if _ENGINE is not None:
+            _ENGINE.abs_log.append((self, r))
+        return r
 
     def __truediv__(self, o):
         if not (isinstance(o, SymNum) or _is_num(o)):
@@ -671,6 +674,30 @@ def abstract_big(formulas, thr: int = 25):
 # the engine
 
 
+def hard_check(solver, timeout_ms, *assumptions):
+    """solver.check() with a hard wall-clock limit: z3's own timeout is
+    advisory, so a watchdog thread interrupts the context."""
+    import threading
+    fired = []
+
+    def stop():
+        fired.append(1)
+        try:
+            solver.ctx.interrupt()
+        except Exception:  # noqa: BLE001
+            pass
+    tm = threading.Timer(timeout_ms / 1000.0 + 2.0, stop)
+    tm.daemon = True
+    tm.start()
+    try:
+        r = solver.check(*assumptions)
+    except z3.Z3Exception:
+        r = z3.unknown
+    finally:
+        tm.cancel()
+    return r
+
+
 class Stats:
     def __init__(self):
         self.paths = 0
@@ -776,6 +803,7 @@ class Engine:
         self.concrete_notes: list = []
         self.sqrt_exact_max_size = 60
         self.sqrt_log: list = []
+        self.abs_log: list = []
         self.stats = Stats()
         self.failures: list[Failure] = []
         self.inconclusives: list[str] = []
@@ -909,7 +937,7 @@ class Engine:
         if extra is not None:
             s.add(extra)
         t = time.time()
-        r = s.check()
+        r = hard_check(s, self.check_timeout_ms)
         self.stats.solver_s += time.time() - t
         self.stats.queries += 1
         if _DEBUG:
@@ -1183,7 +1211,7 @@ class Engine:
         s.add(assertions)
         self.stats.queries += 1
         t = time.time()
-        r = s.check()
+        r = hard_check(s, timeout_ms)
         self.stats.solver_s += time.time() - t
         if _DEBUG:
             print(f'[q one-shot {time.time() - t:.2f}s {r}] n={len(assertions)}', flush=True)
@@ -1213,7 +1241,13 @@ class Engine:
             r, m = self._one_shot([z3.Not(rc)], min(tmo, 10000))
             if r == 'unsat':
                 verdict = 'unsat'
-            elif hyps:
+            elif r == 'sat':
+                # not an identity over free reciprocals: quite likely not an
+                # identity at all -- look for a real counter-model right away
+                m2 = self._substitution_search(cond, tries=60)
+                if m2 is not None:
+                    verdict, model = 'sat', m2
+            if verdict is None and hyps:
                 r, m = self._one_shot(hyps + [z3.Not(rc)], min(tmo, 10000))
                 if r == 'unsat':
                     verdict = 'unsat'
@@ -1229,6 +1263,15 @@ class Engine:
                 verdict = 'unsat'
             elif r == 'sat':
                 verdict, model = 'sat', m
+        if verdict is None and alt is None and kind != 'div' and (
+                _has_div(cond) or any(_has_div(p) for p in self.pc[-6:])):
+            # divisions as free reciprocals over pc and goal jointly: equal
+            # rational terms become the same polynomial, so 'vg == 0 |- s == 0'
+            # is settled by the normal form
+            fs, hyps = recip_abstract(self.pc + [z3.Not(cond)])
+            r, m = self._one_shot(fs, min(tmo, 10000))
+            if r == 'unsat':
+                verdict = 'unsat'
         if verdict is None:
             r, m = self._one_shot(self.pc + [z3.Not(cond)],
                                   tmo if kind != 'div' else min(tmo, 15000))
@@ -1338,6 +1381,7 @@ class Engine:
         self.path_info = {}
         self.sqrt_memo = []
         self.sqrt_log = []
+        self.abs_log = []
 
     def explore(self, fn: Callable[['Engine'], Any],
                 on_path_end: Callable | None = None):
